@@ -118,7 +118,7 @@ Definition mk_edge (s d : nm) (ctl : bool) (labs : list (lkind * lab)) : dedge :
 Lemma build_edge D t p s d ctl labs :
   (is_loc t s || is_bp t s) && (is_loc t d || is_bp t d) = true ->
   build (EdgeBegin s d ctl :: flat_map read_label labs ++ [EdgeEnd]) (mkb D (Some t) p) =
-  mkb D (Some (with_edges t (dt_edges t ++ [mk_edge s d ctl labs]))) (PCur (length (dt_edges t))).
+  mkb D (Some (with_edges t (dt_edges t ++ [mk_edge s d ctl labs]))) PNone.
 Proof.
   intros H. change (build (?c :: ?r) ?st) with (build r (step st c)). cbn [step b_cur b_done b_edge]. rewrite H.
   rewrite build_app. set (t1 := with_edges t (dt_edges t ++ [mkdedge s d ctl [] None None None None])).
@@ -151,7 +151,7 @@ Proof.
     destruct (lookup m (xe_src e)) as [s|]; [|discriminate]. destruct (lookup m (xe_dst e)) as [d|]; [|discriminate]. inversion Ea; subst a.
     rewrite !is_named in Ho. rewrite build_app, (build_edge D t p s d (xe_control e) (xe_labels e) Ho).
     set (t1 := with_edges t (dt_edges t ++ [mk_edge s d (xe_control e) (xe_labels e)])).
-    destruct (IH t1 (PCur (length (dt_edges t))) b) as [p' Hp']; auto.
+    destruct (IH t1 PNone b) as [p' Hp']; auto.
     exists p'. rewrite Hp'. unfold t1, with_edges, mk_edge. cbn. rewrite <- app_assoc. reflexivity.
 Qed.
 
@@ -280,10 +280,77 @@ Proof.
   induction cs as [|c cs IH]; intros b H; cbn; [exact H|]. apply IH. apply inv_step. exact H.
 Qed.
 
-(* ---- the stale currentEdge: a label after a failed edge lands on the previous edge (known finding, C05 / C16) ---- *)
-Theorem stale_edge_refuted :
+(* ---- an edge that cannot be created is isolated: its labels change nothing (C05 / C16; the pinned tree let them land on
+        the previous edge, repaired by resetting currentEdge in proc_edge_end) ------------------------------------ *)
+Definition is_label (c : cb) : bool := match c with Select _ | Guard _ | Sync _ | Update _ | Prob _ => true | _ => false end.
+Lemma labels_without_edge : forall ls b, forallb is_label ls = true -> b_edge b = PNone -> build ls b = b.
+Proof.
+  induction ls as [|c ls IH]; intros b H E; [reflexivity|]. cbn [forallb] in H. apply andb_true_iff in H as [Hc H].
+  change (build (c :: ls) b) with (build ls (step b c)).
+  assert (S : step b c = b) by (destruct c; try discriminate; cbn [step]; unfold on_cur_edge; now rewrite E).
+  rewrite S. now apply IH.
+Qed.
+Theorem failed_edge_isolated D t s d ctl ls :
+  (is_loc t s || is_bp t s) && (is_loc t d || is_bp t d) = false -> forallb is_label ls = true ->
+  build (EdgeBegin s d ctl :: ls ++ [EdgeEnd]) (mkb D (Some t) PNone) = mkb D (Some t) PNone.
+Proof.
+  intros H L. change (build (?c :: ?r) ?st) with (build r (step st c)). cbn [step b_cur]. rewrite H.
+  rewrite build_app, (labels_without_edge ls) by (auto; reflexivity). reflexivity.
+Qed.
+(* after every completed edge no edge is current, so the hypothesis above is what every later edge starts from *)
+Lemma edge_end_resets b : b_edge (step b EdgeEnd) = PNone.
+Proof. reflexivity. Qed.
+Example failed_edge_example :
   let cs := [ProcBegin 0; ProcLocation (Named 1) None None; ProcLocation (Named 2) None None;
              EdgeBegin (Named 1) (Named 2) true; Guard 10; EdgeEnd;
              EdgeBegin (Named 9) (Named 2) true; Guard 77; EdgeEnd; ProcEnd] in       (* the second edge's source does not exist *)
-  map (fun t => map de_guard (dt_edges t)) (templates (build cs b0)) = [[Some 77]].
+  map (fun t => map de_guard (dt_edges t)) (templates (build cs b0)) = [[Some 10]].
 Proof. vm_compute. reflexivity. Qed.
+
+(* ---- the initial location, whenever one is recorded, is a location of the same template (C08) ---- *)
+Definition init_ok (t : dtempl) : Prop := match dt_init t with Some n => is_loc t n = true | None => True end.
+Definition InitInv (b : bstate) : Prop := Forall init_ok (b_done b) /\ match b_cur b with Some t => init_ok t | None => True end.
+Lemma init_relabel t es : init_ok t -> init_ok (with_edges t es).
+Proof. unfold init_ok, with_edges, is_loc. cbn. auto. Qed.
+Lemma init_on_cur_edge b f : InitInv b -> InitInv (on_cur_edge b f).
+Proof.
+  intros [Hd Hc]. unfold on_cur_edge. destruct (b_edge b) as [|ei|ti ei]; [split; assumption| |].
+  - destruct (b_cur b) as [t|] eqn:E; [|split; [assumption|rewrite E; exact I]]. split; cbn; [assumption|]. now apply init_relabel.
+  - split; cbn; [|exact Hc]. apply Forall_upd_nth; [assumption|]. intros t Ht. now apply init_relabel.
+Qed.
+Lemma init_grow t t' : dt_init t' = dt_init t -> (forall n, is_loc t n = true -> is_loc t' n = true) -> init_ok t -> init_ok t'.
+Proof. unfold init_ok. intros -> H. destruct (dt_init t); auto. Qed.
+Theorem init_step b c : InitInv b -> InitInv (step b c).
+Proof.
+  intros [Hd Hc]. destruct c; cbn [step].
+  - split; cbn; [|exact I].
+    destruct (b_cur b) as [t|]; [apply Forall_app; split; [assumption|constructor; [exact Hc|constructor]]|assumption].
+  - destruct (b_cur b) as [t|] eqn:E; [|split; [assumption|rewrite E; exact I]]. split; cbn; [|exact I].
+    apply Forall_app. split; [assumption|constructor; [exact Hc|constructor]].
+  - unfold on_cur. destruct (b_cur b) as [t|] eqn:E; [|split; [assumption|rewrite E; exact I]]. split; cbn; [assumption|].
+    apply (init_grow t); cbn; auto. intros n0 H. unfold is_loc in *. cbn [dt_locs]. rewrite existsb_app, H. reflexivity.
+  - unfold on_cur. destruct (b_cur b) as [t|] eqn:E; [|split; [assumption|rewrite E; exact I]]. split; [exact Hd|]. cbn [b_cur].
+    match goal with |- init_ok (if ?c then _ else _) => destruct c end; [|exact Hc].
+    apply (init_grow t); auto. intros n0 H. rewrite is_loc_set_flag; auto.
+  - unfold on_cur. destruct (b_cur b) as [t|] eqn:E; [|split; [assumption|rewrite E; exact I]]. split; [exact Hd|]. cbn [b_cur].
+    match goal with |- init_ok (if ?c then _ else _) => destruct c end; [|exact Hc].
+    apply (init_grow t); auto. intros n0 H. rewrite is_loc_set_flag; auto.
+  - unfold on_cur. destruct (b_cur b) as [t|] eqn:E; [|split; [assumption|rewrite E; exact I]]. split; cbn; [assumption|].
+    apply (init_grow t); cbn; auto.
+  - unfold on_cur. destruct (b_cur b) as [t|] eqn:E; [|split; [assumption|rewrite E; exact I]]. split; [exact Hd|]. cbn [b_cur].
+    destruct (is_loc t n) eqn:L; [|exact Hc]. unfold init_ok, is_loc in *. cbn. exact L.
+  - destruct (b_cur b) as [t|] eqn:E; [|split; [assumption|rewrite E; exact I]].
+    destruct ((is_loc t src || is_bp t src) && (is_loc t dst || is_bp t dst)) eqn:Q; [|split; [assumption|rewrite E; exact Hc]].
+    split; cbn; [assumption|]. now apply init_relabel.
+  - split; assumption.
+  - apply init_on_cur_edge; split; assumption.
+  - apply init_on_cur_edge; split; assumption.
+  - apply init_on_cur_edge; split; assumption.
+  - apply init_on_cur_edge; split; assumption.
+  - apply init_on_cur_edge; split; assumption.
+Qed.
+Theorem init_all cs : InitInv (build cs b0).
+Proof.
+  unfold build. assert (H : InitInv b0) by (split; cbn; [constructor|exact I]). revert H. generalize b0.
+  induction cs as [|c cs IH]; intros b H; cbn; [exact H|]. apply IH. apply init_step. exact H.
+Qed.
